@@ -92,12 +92,22 @@ def _fr(x):
 def _scaled(x):
     """exact scaled-integer form of a bin content / weight (ints and dyadic floats); anything else is shown as a
     string and can never equal a model integer"""
-    if isinstance(x, bool) or not isinstance(x, (int, float)):
-        return "obj:" + type(x).__name__
-    if isinstance(x, float) and not math.isfinite(x):
-        return "float:" + repr(x)
-    f = Fraction(x) * SCALE
-    return int(f) if f.denominator == 1 else f"{f.numerator}/{f.denominator}"
+    if type(x) is int:
+        return x * SCALE
+    if type(x) is float:
+        if not math.isfinite(x):
+            return "float:" + repr(x)
+        y = x * SCALE               # exact: a power of two (no overflow for the magnitudes used here)
+        if math.isfinite(y) and y.is_integer():
+            return int(y)
+        f = Fraction(x) * SCALE
+        return int(f) if f.denominator == 1 else f"{f.numerator}/{f.denominator}"
+    return "obj:" + type(x).__name__
+
+
+def _same(v, u):
+    """cheap test that a cell did not change (same type and value)"""
+    return v is u or (type(v) is type(u) and v == u)
 
 
 def _nbrs(e):
@@ -467,7 +477,8 @@ def run_impl(case):
                 step["shape_changed"] = True
                 chg = [[list(i), _scaled(v)] for i, v in after]
             else:
-                chg = [[list(i), _scaled(v)] for (i, v), (_, u) in zip(after, before) if _scaled(v) != _scaled(u)]
+                chg = [[list(i), _scaled(v)] for (i, v), (_, u) in zip(after, before)
+                       if not _same(v, u) and _scaled(v) != _scaled(u)]
             if err is not None:
                 step["e"] = err
                 if chg:
@@ -570,9 +581,10 @@ def _numbers(case):
 
 
 def _ranks(case):
-    fr = sorted(set(Fraction(x) for x in _numbers(case)))
-    idx = {f: i for i, f in enumerate(fr)}
-    return lambda x: idx[Fraction(x)]
+    # Python compares ints and floats exactly (and 1 == 1.0 hash alike), so sorting the distinct numbers is an exact
+    # order embedding into 0..n-1
+    idx = {x: i for i, x in enumerate(sorted(set(_numbers(case))))}
+    return idx.__getitem__
 
 
 def _is_axes(edges):
